@@ -110,6 +110,12 @@ structure StepRes (a a' : Dc) (f : ℚ) : Prop where
   exact : dval a' = dval a * f → a'.trunc = a.trunc
   inexact : dval a' ≠ dval a * f → a'.trunc = true
 
+theorem trim_dp (b : Dc) (h : b.trim.d ≠ []) : b.trim.dp = b.dp := by
+  unfold Dc.trim at h ⊢
+  cases ht : trimZeros b.d with
+  | nil => rw [ht] at h; exact absurd rfl h
+  | cons c cs => rfl
+
 /-- **rightShift(a, k) with the buffer limit**: the quotient cut to 800 digits -/
 theorem rightShift_floor (a : Dc) (k : Nat) (hk1 : 1 ≤ k) (hk : k ≤ 60) (hwf : WF a) (hne : a.d ≠ []) :
     StepRes a (rightShift a k) (1 / (2 : ℚ) ^ k) := by
@@ -168,11 +174,7 @@ theorem rightShift_floor (a : Dc) (k : Nat) (hk1 : 1 ≤ k) (hk : k ≤ 60) (hwf
       rw [this, hcs] at h; injection h with h _; rw [← h]; exact hc48
   have hbne : b.d ≠ [] := by show out3.reverse ≠ []; rw [hcs]; simp
   obtain ⟨w1, w2, w3, w4, w5, w6⟩ := trim_wf b hbwf hbne
-  have hdp : b.trim.dp = a.dp - ((r1 : Int) - 1) := by
-    unfold Dc.trim
-    have : trimZeros b.d ≠ [] := w2
-    simp only [this, if_false]
-    rfl
+  have hdp : b.trim.dp = a.dp - ((r1 : Int) - 1) := trim_dp b w2
   -- the value
   have hNat : 10 * 2 ^ k * valOf 10 out3.reverse + R = valOf 10 a.d * 10 ^ (pad + p) := by
     rw [t1, m1]
@@ -191,7 +193,9 @@ theorem rightShift_floor (a : Dc) (k : Nat) (hk1 : 1 ≤ k) (hk : k ≤ 60) (hwf
       (valOf 10 out3.reverse : ℚ) * (10 : ℚ) ^ (a.dp - ((r1 : Int) - 1) - (out3.reverse.length : Int)) + _
     have hN : ((10 * 2 ^ k * valOf 10 out3.reverse + R : Nat) : ℚ) = ((valOf 10 a.d * 10 ^ (pad + p) : Nat) : ℚ) := by rw [hNat]
     push_cast at hN
-    rw [hexp, zpow_sub₀ (by norm_num : (10 : ℚ) ≠ 0), zpow_add₀ (by norm_num : (10 : ℚ) ≠ 0), zpow_natCast]
+    rw [hexp]
+    generalize a.dp - (a.d.length : Int) = E
+    rw [zpow_sub₀ (by norm_num : (10 : ℚ) ≠ 0), zpow_add₀ (by norm_num : (10 : ℚ) ≠ 0), zpow_natCast]
     have h10 : (10 : ℚ) ^ (pad + p) ≠ 0 := by positivity
     have h2 : (2 : ℚ) ^ k ≠ 0 := by positivity
     have hNq : (valOf 10 a.d : ℚ) = (10 * (2 : ℚ) ^ k * (valOf 10 out3.reverse : ℚ) + R) / (10 : ℚ) ^ (pad + p) := by
@@ -235,5 +239,195 @@ theorem rightShift_floor (a : Dc) (k : Nat) (hk1 : 1 ≤ k) (hk : k ≤ 60) (hwf
     by_cases hR : R = 0
     · exfalso; apply hneq; rw [w4, hval, hR]; simp
     · exact (tin hR).1
+
+end C03
+
+namespace C03
+open Num Spec.NumText
+
+theorem valOf_pos_of_any : ∀ (ds : Bytes), ds.all isDec = true → ds.any (· != 48) = true → 0 < valOf 10 ds := by
+  intro ds
+  induction ds using List.reverseRecOn with
+  | nil => intro _ h; simp at h
+  | append_singleton ds c ih =>
+    intro hd ha
+    rw [List.all_append, Bool.and_eq_true] at hd
+    rw [List.any_append, Bool.or_eq_true] at ha
+    rw [valOf_snoc]
+    rcases ha with ha | ha
+    · have := ih hd.1 ha; omega
+    · have hc : isDec c = true := by simpa using hd.2
+      have hc48 : (c != 48) = true := by simpa using ha
+      have : ∀ c : UInt8, isDec c = true → (c != 48) = true → 0 < digVal c :=
+        byte_forall (P := fun c => isDec c = true → (c != 48) = true → 0 < digVal c) (by decide +kernel)
+      have := this c hc hc48
+      omega
+
+/-- **leftShift(a, k) with the buffer limit**: the product cut to 800 digits -/
+theorem leftShift_floor (a : Dc) (k : Nat) (hk1 : 1 ≤ k) (hk : k ≤ 60) (hwf : WF a) (hne : a.d ≠ []) :
+    StepRes a (leftShift a k) ((2 : ℚ) ^ k) := by
+  have hlo := wf_lo a hwf hne
+  obtain ⟨c1, c2, c3⟩ := cheat_digits k hk1 hk a.d hwf.dig hlo hne
+  have hrd : a.d.reverse.all isDec = true := by rw [List.all_reverse]; exact hwf.dig
+  obtain ⟨m1, m2, m3, m4⟩ := lsMain_spec k a.d.reverse 0 [] hrd rfl
+  have hp2 : 0 < 2 ^ k := Nat.pow_pos (by decide)
+  have m4' := m4 hp2
+  have v0 : valOf 10 ([] : Bytes) = 0 := rfl
+  simp only [List.reverse_reverse, v0, Nat.zero_add, List.length_nil, Nat.pow_zero, Nat.mul_one,
+    List.length_reverse] at m1 m2
+  generalize hn : (lsMain k a.d.reverse 0 []).1 = n at *
+  generalize ho : (lsMain k a.d.reverse 0 []).2 = out at *
+  have hn64 : n < 10 ^ 64 := by
+    have : 2 ^ k ≤ 2 ^ 60 := Nat.pow_le_pow_right (by decide) hk
+    have : (2 : Nat) ^ 60 < 10 ^ 64 := by decide
+    omega
+  obtain ⟨t1, t2, t3⟩ := lsTail_spec 64 n out hn64 m3
+  obtain ⟨t, u1, u2, u3⟩ := lsTail_count 64 n out hn64
+  generalize hall : lsTail 64 n out = all at *
+  have hV : valOf 10 all = valOf 10 a.d * 2 ^ k := by rw [t1]; exact m1
+  have hlow : 10 ^ (all.length - 1) ≤ valOf 10 all := by
+    rw [u1, m2]
+    by_cases hn0 : n = 0
+    · rw [u3 hn0, Nat.add_zero, hV]
+      calc 10 ^ (a.d.length - 1) ≤ valOf 10 a.d := hlo
+        _ ≤ valOf 10 a.d * 2 ^ k := Nat.le_mul_of_pos_right _ hp2
+    · obtain ⟨b1, b2⟩ := u2 (by omega)
+      rw [t1, m2]
+      calc 10 ^ (a.d.length + t - 1) = 10 ^ (t - 1) * 10 ^ a.d.length := by rw [← Nat.pow_add]; congr 1; omega
+        _ ≤ n * 10 ^ a.d.length := Nat.mul_le_mul_right _ b1
+        _ ≤ _ := Nat.le_add_left _ _
+  have hup := valOf_lt all t2
+  have hallpos : 1 ≤ all.length := by rw [u1, m2]; have := List.length_pos_iff.mpr hne; omega
+  have hcount : all.length = a.d.length + cheatDelta k a.d := by
+    apply pow10_unique _ _ (valOf 10 all) hallpos c3 hlow hup
+    · rw [hV]; exact c1
+    · rw [hV]; exact c2
+  have hls : leftShift a k =
+      ({ a with d := (all.take bufLen).take (min (a.d.length + cheatDelta k a.d) bufLen + (all.length - (a.d.length + cheatDelta k a.d))),
+                dp := a.dp + (cheatDelta k a.d : Int),
+                trunc := a.trunc || (all.drop bufLen).any (· != 48) } : Dc).trim := by
+    unfold leftShift cheatDelta
+    simp only [hn, ho, hall]
+  have hkept : (all.take bufLen).take (min (a.d.length + cheatDelta k a.d) bufLen + (all.length - (a.d.length + cheatDelta k a.d)))
+      = all.take bufLen := by
+    rw [← hcount, Nat.sub_self, Nat.add_zero]
+    apply List.take_of_length_le
+    rw [List.length_take]; omega
+  rw [hkept] at hls
+  let b : Dc := { a with d := all.take bufLen, dp := a.dp + (cheatDelta k a.d : Int),
+                         trunc := a.trunc || (all.drop bufLen).any (· != 48) }
+  have hb : leftShift a k = b.trim := hls
+  have hsplit : all = all.take bufLen ++ all.drop bufLen := (List.take_append_drop _ _).symm
+  have hdig2 : (all.take bufLen).all isDec = true ∧ (all.drop bufLen).all isDec = true := by
+    rw [hsplit, List.all_append, Bool.and_eq_true] at t2; exact t2
+  have hVk : valOf 10 all = valOf 10 (all.take bufLen) * 10 ^ (all.drop bufLen).length + valOf 10 (all.drop bufLen) := by
+    conv => lhs; rw [hsplit]
+    rw [valOf_append10]
+  have hDlt := valOf_lt (all.drop bufLen) hdig2.2
+  have hhead := head_nonzero all t2 hlow
+  have hbwf : WF b := by
+    refine ⟨hdig2.1, by show (all.take bufLen).length ≤ bufLen; rw [List.length_take]; omega, ?_⟩
+    intro c cs h
+    have : b.d = all.take bufLen := rfl
+    rw [this] at h
+    cases hal : all with
+    | nil => rw [hal] at hallpos; simp at hallpos
+    | cons x xs =>
+      rw [hal] at h
+      have hbl : bufLen = 799 + 1 := rfl
+      rw [hbl, List.take_succ_cons] at h
+      injection h with h _
+      rw [← h]; exact hhead x xs hal
+  have hbne : b.d ≠ [] := by
+    show all.take bufLen ≠ []
+    cases hal : all with
+    | nil => rw [hal] at hallpos; simp at hallpos
+    | cons x xs => have hbl : bufLen = 799 + 1 := rfl
+                   rw [hbl, List.take_succ_cons]; simp
+  obtain ⟨w1, w2, w3, w4, w5, w6⟩ := trim_wf b hbwf hbne
+  have hdp : b.trim.dp = a.dp + (cheatDelta k a.d : Int) := trim_dp b w2
+  generalize hD : valOf 10 (all.drop bufLen) = D at *
+  generalize hr : (all.drop bufLen).length = r at *
+  have hlens : (all.length : Int) = (all.take bufLen).length + r := by
+    have := congrArg List.length hsplit
+    rw [List.length_append, hr] at this
+    exact_mod_cast this
+  have hcountI : (all.length : Int) = a.d.length + (cheatDelta k a.d : Int) := by exact_mod_cast hcount
+  have hU : (0 : ℚ) < (10 : ℚ) ^ (a.dp + (cheatDelta k a.d : Int) - ((all.take bufLen).length : Int)) := by positivity
+  have hval : dval a * (2 : ℚ) ^ k = dval b +
+      ((D : ℚ) / (10 : ℚ) ^ r) * (10 : ℚ) ^ (a.dp + (cheatDelta k a.d : Int) - ((all.take bufLen).length : Int)) := by
+    show (valOf 10 a.d : ℚ) * (10 : ℚ) ^ (a.dp - a.d.length) * (2 : ℚ) ^ k =
+      (valOf 10 (all.take bufLen) : ℚ) * (10 : ℚ) ^ (a.dp + (cheatDelta k a.d : Int) - ((all.take bufLen).length : Int)) + _
+    have hq : ((valOf 10 a.d * 2 ^ k : Nat) : ℚ) = ((valOf 10 (all.take bufLen) * 10 ^ r + D : Nat) : ℚ) := by
+      rw [← hV, hVk]
+    push_cast at hq
+    have hexp : a.dp - (a.d.length : Int) = (a.dp + (cheatDelta k a.d : Int) - ((all.take bufLen).length : Int)) - (r : Int) := by
+      omega
+    rw [hexp]
+    generalize a.dp + (cheatDelta k a.d : Int) - ((all.take bufLen).length : Int) = e1
+    rw [zpow_sub₀ (by norm_num : (10 : ℚ) ≠ 0), zpow_natCast]
+    have h10 : (10 : ℚ) ^ r ≠ 0 := by positivity
+    have e : (valOf 10 a.d : ℚ) * ((10 : ℚ) ^ e1 / (10 : ℚ) ^ r) * (2 : ℚ) ^ k
+        = ((valOf 10 a.d : ℚ) * (2 : ℚ) ^ k) * (10 : ℚ) ^ e1 / (10 : ℚ) ^ r := by ring
+    rw [e, hq]
+    field_simp
+  have hR0 : (0 : ℚ) ≤ (D : ℚ) / (10 : ℚ) ^ r := by positivity
+  have hR1 : (D : ℚ) / (10 : ℚ) ^ r < 1 := by
+    rw [div_lt_one (by positivity)]
+    exact_mod_cast hDlt
+  have hD0 : D = 0 → (all.drop bufLen).any (· != 48) = false := by
+    intro h0
+    cases hany : (all.drop bufLen).any (· != 48) with
+    | false => rfl
+    | true => have := valOf_pos_of_any _ hdig2.2 hany; omega
+  have hD1 : D ≠ 0 → (all.drop bufLen).any (· != 48) = true ∧ ((all.take bufLen).length : Int) = 800 := by
+    intro h1
+    constructor
+    · cases hany : (all.drop bufLen).any (· != 48) with
+      | true => rfl
+      | false => exact absurd (hD ▸ valOf_zeros _ hany) h1
+    · have : r ≠ 0 := by
+        intro hr0
+        have : all.drop bufLen = [] := List.length_eq_zero_iff.mp (hr0 ▸ hr)
+        rw [this] at hD
+        exact h1 hD.symm
+      have hlt : bufLen < all.length := by
+        have := List.length_drop (i := bufLen) (l := all)
+        omega
+      rw [List.length_take, Nat.min_eq_left (by omega)]; rfl
+  rw [hb]
+  refine ⟨w1, w2, w3, w5, ?_, ?_, ?_, ?_⟩
+  · rw [w4, hval]
+    have := mul_nonneg hR0 hU.le
+    linarith
+  · rw [w4, hdp, hval]
+    by_cases hDz : D = 0
+    · subst hDz
+      simp only [Nat.cast_zero, zero_div, zero_mul, add_zero]
+      have : (0 : ℚ) < (10 : ℚ) ^ (a.dp + (cheatDelta k a.d : Int) - 800) := by positivity
+      linarith
+    · rw [(hD1 hDz).2] at hU ⊢
+      have := mul_lt_mul_of_pos_right hR1 hU
+      linarith
+  · intro heq
+    rw [w4, hval] at heq
+    have hz : (D : ℚ) / (10 : ℚ) ^ r * (10 : ℚ) ^ (a.dp + (cheatDelta k a.d : Int) - ((all.take bufLen).length : Int)) = 0 := by linarith
+    have hDz : D = 0 := by
+      rcases mul_eq_zero.mp hz with h | h
+      · rw [div_eq_zero_iff] at h
+        rcases h with h | h
+        · exact_mod_cast h
+        · exfalso; have : (0 : ℚ) < (10 : ℚ) ^ r := by positivity
+          linarith
+      · exfalso; linarith
+    rw [w6]
+    show (a.trunc || (all.drop bufLen).any (· != 48)) = a.trunc
+    rw [hD0 hDz, Bool.or_false]
+  · intro hneq
+    rw [w6]
+    show (a.trunc || (all.drop bufLen).any (· != 48)) = true
+    by_cases hDz : D = 0
+    · exfalso; apply hneq; rw [w4, hval, hDz]; simp
+    · rw [(hD1 hDz).1, Bool.or_true]
 
 end C03
